@@ -1,8 +1,48 @@
 //! Verification hook (compiled only with `--cfg quinn_rs_quinn_verif`).
+//!
+//! Component: `token_cache` — the real `TokenMemoryCache` through the public `TokenStore` trait.
 #![allow(missing_docs, dead_code, unused_imports, unreachable_pub, clippy::all)]
 use super::{Ops, Outs};
+use crate::{TokenMemoryCache, TokenStore};
+use bytes::Bytes;
+
+/// token_cache ops:
+///   op 0 must be [0, max_server_names, max_tokens_per_server]  `TokenMemoryCache::new` -> [0]
+///   [1, server, token]   insert(server.to_string(), token as 8 big-endian bytes)        -> [0]
+///   [2, server]          take(server.to_string())  -> [0] (None) | [1, token]
+fn token_cache(ops: &Ops) -> Outs {
+    let mut cache = TokenMemoryCache::new(0, 0);
+    let mut outs = Vec::new();
+    for (i, op) in ops.iter().enumerate() {
+        let o = match op[0] {
+            0 if i == 0 => {
+                cache = TokenMemoryCache::new(op[1] as u32, op[2] as usize);
+                vec![0]
+            }
+            1 => {
+                let tok = Bytes::copy_from_slice(&(op[2] as u64).to_be_bytes());
+                cache.insert(&op[1].to_string(), tok);
+                vec![0]
+            }
+            2 => match cache.take(&op[1].to_string()) {
+                None => vec![0],
+                Some(b) => {
+                    let mut a = [0u8; 8];
+                    a.copy_from_slice(&b[..8]);
+                    vec![1, u64::from_be_bytes(a) as i128]
+                }
+            },
+            _ => vec![-1],
+        };
+        outs.push(o);
+    }
+    outs
+}
 
 /// Interpret `ops` for component `comp`; `None` if `comp` is not served by this module.
-pub(crate) fn run(_comp: &str, _ops: &Ops) -> Option<Outs> {
-    None
+pub(crate) fn run(comp: &str, ops: &Ops) -> Option<Outs> {
+    match comp {
+        "token_cache" => Some(token_cache(ops)),
+        _ => None,
+    }
 }
